@@ -36,7 +36,7 @@ var c11HelperFile string
 func init() {
 	register(&Prop{
 		ID:         "C11",
-		Rule:       "cb: every parameter pattern over {used, blank} up to 4 parameters (+ variadic last) with seeded result selections and arguments; prog: 13 program kinds x seeds with random data, compared with the same source compiled by Go; non-trivial = at least one value crossed the interpreter/compiled boundary",
+		Rule:       "cb: every parameter pattern over {used, blank} up to 4 parameters (+ variadic last) with seeded result selections and arguments; cbk: typed parameters of every basic kind with boundary values on the generic calling path; prog: 15 program kinds x seeds with random data, compared with the same source compiled by Go; non-trivial = at least one value crossed the interpreter/compiled boundary",
 		Gen:        c11Gen,
 		Exec:       c11Exec,
 		Prepare:    c11Prepare,
@@ -44,7 +44,7 @@ func init() {
 	})
 }
 
-var c11Kinds = []string{"sortslice", "sortsort", "stringsfunc", "stringer", "reader", "once", "search", "closure", "goroutines", "variadic", "panics", "methodvalue", "sprint"}
+var c11Kinds = []string{"sortslice", "sortsort", "stringsfunc", "stringer", "reader", "once", "search", "closure", "goroutines", "variadic", "panics", "methodvalue", "sprint", "foreignpanic", "reassign"}
 
 func c11Gen(rng *rand.Rand, tier string, emit func(string)) {
 	// bounded-exhaustive patterns
@@ -104,6 +104,7 @@ func c11Gen(rng *rand.Rand, tier string, emit func(string)) {
 			emit(fmt.Sprintf("cb %s%s|%s|%s", named, p, strings.Join(sel, ","), strings.Join(args, ";")))
 		}
 	}
+	c11GenK(rng, tier, emit)
 	for s := 0; s < seeds; s++ {
 		for k := range c11Kinds {
 			emit(fmt.Sprintf("prog %s %d", c11Kinds[k], rng.Int63()))
@@ -405,6 +406,218 @@ func mayFail(n int) error {
 	}
 	ss := []fmt.Stringer{p, pt{0, 0, "o"}}
 	emit("slice=" + hStringer(ss[0]) + hStringer(ss[1]))`, rng.Intn(100), rng.Intn(100), c11Word(rng), rng.Intn(1000), c11Word(rng), 0, rng.Intn(10))}, true
+	case "foreignpanic":
+		// callbacks entered from FOREIGN goroutines that panic; the panic is recovered by a deferred NAMED
+		// top-level function / method value (not a func literal), also nested and with state kept across
+		// several callbacks running on the same foreign goroutine
+		return c11Prog{Imports: []string{"errors", "strings"}, Decls: `
+var notes []string
+
+func note(s string) { notes = append(notes, s) }
+
+func cleanup() {
+	if e := recover(); e != nil {
+		note(fmt.Sprint("cleanup recovered: ", e))
+	}
+}
+
+type guard struct {
+	name string
+	hits int
+}
+
+func (g *guard) done() {
+	if e := recover(); e != nil {
+		g.hits++
+		note(fmt.Sprint(g.name, " recovered: ", e, " #", g.hits))
+	}
+}
+
+var errOdd = errors.New("odd input")
+
+func risky(i, mod int) (res int) {
+	defer cleanup()
+	res = -1
+	if i%mod == 0 {
+		panic(fmt.Sprint("bad ", i))
+	}
+	return i * 10
+}
+
+func guarded(g *guard, i int) (res int) {
+	defer g.done()
+	if i%2 == 1 {
+		panic(errOdd)
+	}
+	return i + 100
+}
+
+func inner(i int) int {
+	defer cleanup()
+	if i > 0 {
+		panic(fmt.Sprint("inner ", i))
+	}
+	return 7
+}
+`, Body: fmt.Sprintf(`
+	mod := %d
+	n := %d
+	emit(fmt.Sprint("named=", hGoSafe(func(i int) int { return risky(i, mod) }, n)))
+	emit("notes1=" + strings.Join(notes, ";"))
+	notes = nil
+	g := &guard{name: %q}
+	emit(fmt.Sprint("method=", hGoSafe(func(i int) int { return guarded(g, i) }, n), g.hits))
+	emit("notes2=" + strings.Join(notes, ";"))
+	notes = nil
+	emit(fmt.Sprint("nested=", hGoSafe(func(i int) int { return hCallN(inner, 2)[1] + risky(i+1, mod) }, 3)))
+	emit("notes3=" + strings.Join(notes, ";"))
+	notes = nil
+	shared := 0
+	fs := []func() string{
+		func() string { shared += risky(1, 5); return fmt.Sprint("a", shared) },
+		func() string { shared += risky(5, 5); return fmt.Sprint("b", shared) },
+		func() string { shared += guarded(g, 3); return fmt.Sprint("c", shared) },
+		func() string { defer cleanup(); shared++; panic("direct") },
+		func() string { return fmt.Sprint("e", shared, g.hits) },
+	}
+	emit(fmt.Sprint("many=", hGoMany(fs)))
+	emit("notes4=" + strings.Join(notes, ";"))
+	notes = nil
+	emit(fmt.Sprint("literal=", hGoSafe(func(i int) (res int) {
+		defer func() {
+			if e := recover(); e != nil {
+				res = -i
+			}
+		}()
+		if i%%2 == 0 {
+			panic("lit")
+		}
+		return i
+	}, 4)))
+	emit(fmt.Sprint("owner=", risky(%d, mod), guarded(g, 1), strings.Join(notes, ";")))`, 2+rng.Intn(3), 3+rng.Intn(6), c11Word(rng), rng.Intn(10))}, true
+	case "reassign":
+		// convert a VARIABLE to a compiled interface, reassign the variable, use the old interface value
+		return c11Prog{Imports: []string{"sort", "strings"}, Decls: `
+type nslice []int
+
+func (s nslice) Len() int           { return len(s) }
+func (s nslice) Less(i, j int) bool { return s[i] < s[j] }
+func (s nslice) Swap(i, j int)      { s[i], s[j] = s[j], s[i] }
+func (s nslice) String() string     { return fmt.Sprint("nslice", []int(s)) }
+
+type nmap map[string]int
+
+func (m nmap) String() string {
+	keys := []string{}
+	for k := range m {
+		keys = append(keys, fmt.Sprint(k, ":", m[k]))
+	}
+	sort.Strings(keys)
+	return "nmap{" + strings.Join(keys, ",") + "}"
+}
+
+type nfunc func() string
+
+func (f nfunc) String() string { return "nfunc->" + f() }
+
+type nchan chan int
+
+func (c nchan) String() string { return fmt.Sprint("nchan cap=", cap(c), " len=", len(c)) }
+
+type pstruct struct{ a int }
+
+func (p *pstruct) String() string { return fmt.Sprint("pstruct", p.a) }
+
+type vstruct struct{ a int }
+
+func (v vstruct) String() string { return fmt.Sprint("vstruct", v.a) }
+
+type narr [2]int
+
+func (a narr) String() string { return fmt.Sprint("narr", a[0], a[1]) }
+
+type nint int
+
+func (n nint) String() string { return fmt.Sprint("nint", int(n)) }
+
+type nstr string
+
+func (s nstr) String() string { return "nstr:" + string(s) }
+`, Body: fmt.Sprintf(`
+	a := nslice(%s)
+	var si sort.Interface = a
+	var ss fmt.Stringer = a
+	a0 := a
+	b := nslice(%s)
+	a = b
+	sort.Sort(si)
+	emit(fmt.Sprint("slice=", []int(a0), []int(b), sort.IsSorted(a0), hStringer(ss), hStringer(a)))
+	m := nmap{"x": %d}
+	var sm fmt.Stringer = m
+	m = nmap{"y": 2, "z": 3}
+	emit("map=" + hStringer(sm) + hStringer(m))
+	word := %q
+	f := nfunc(func() string { return word })
+	var sf fmt.Stringer = f
+	f = func() string { return "second" }
+	emit("func=" + hStringer(sf) + hStringer(f))
+	c := make(nchan, %d)
+	var sc fmt.Stringer = c
+	c = make(nchan, 9)
+	c <- 1
+	emit("chan=" + hStringer(sc) + hStringer(c))
+	p := &pstruct{%d}
+	var sp fmt.Stringer = p
+	p = &pstruct{-1}
+	emit("ptr=" + hStringer(sp) + hStringer(p))
+	v := vstruct{%d}
+	var sv fmt.Stringer = v
+	v = vstruct{-2}
+	v.a--
+	emit("struct=" + hStringer(sv) + hStringer(v))
+	ar := narr{%d, 2}
+	var sa fmt.Stringer = ar
+	ar = narr{7, 8}
+	ar[0] = 9
+	emit("array=" + hStringer(sa) + hStringer(ar))
+	var list []fmt.Stringer
+	var cur nslice
+	var curp *pstruct
+	var curm nmap
+	for i := 0; i < %d; i++ {
+		cur = nslice{i, i * i}
+		curp = &pstruct{i}
+		curm = nmap{"k": i}
+		var s1 fmt.Stringer = cur
+		var s2 fmt.Stringer = curp
+		var s3 fmt.Stringer = curm
+		list = append(list, s1, s2, s3)
+	}
+	out := []string{}
+	for _, s := range list {
+		out = append(out, hStringer(s))
+	}
+	emit("loop=" + strings.Join(out, ""))
+	var ifs []sort.Interface
+	var w nslice
+	for i := 0; i < 3; i++ {
+		w = nslice{3 - i, i, 5}
+		var wi sort.Interface = w
+		ifs = append(ifs, wi)
+	}
+	res := []string{}
+	for _, x := range ifs {
+		sort.Sort(x)
+		res = append(res, fmt.Sprint(x.Len(), x.Less(0, 1)))
+	}
+	emit(fmt.Sprint("sortloop=", res, []int(w)))
+	ni := nint(%d)
+	var sn fmt.Stringer = ni
+	ni = 99
+	ns := nstr(word)
+	var sns fmt.Stringer = ns
+	ns = "changed"
+	emit("basic=" + hStringer(sn) + hStringer(ni) + hStringer(sns) + hStringer(ns))`, c11Ints(rng, 3+rng.Intn(6), 50), c11Ints(rng, 3+rng.Intn(6), 50), rng.Intn(100), c11Word(rng), 1+rng.Intn(5), rng.Intn(100), rng.Intn(100), rng.Intn(100), 2+rng.Intn(4), rng.Intn(100))}, true
 	case "sprint":
 		// the value reaches compiled code as interface{} (fmt.Sprint's parameter type), not as fmt.Stringer
 		return c11Prog{Imports: []string{"errors"}, Decls: `
@@ -731,6 +944,8 @@ func c11RunInterp(p c11Prog) (lines []string, errText string) {
 	ir.DeclFunc("hError", hError)
 	ir.DeclFunc("hReadAll", hReadAll)
 	ir.DeclFunc("hFold", hFold)
+	ir.DeclFunc("hGoSafe", hGoSafe)
+	ir.DeclFunc("hGoMany", hGoMany)
 	var out []string
 	ir.DeclFunc("emit", func(s string) { out = append(out, s) })
 	pre := "import \"fmt\"\n"
@@ -839,8 +1054,305 @@ func c11Exec(op string) Result {
 	switch f {
 	case "cb":
 		return c11Cb(arg)
+	case "cbk":
+		kinds, rest, _ := strings.Cut(arg, " ")
+		return c11CbK(strings.Split(kinds, ","), rest)
 	case "prog":
 		return c11Prog1(arg)
 	}
 	return Result{Out: "bad-op", Tags: []string{"bad-op"}}
+}
+
+// ---------------- cbk: typed parameters, boundary values, generic calling path ----------------
+
+var c11KindList = []string{"bool", "int", "int8", "int16", "int32", "int64", "uint", "uint8", "uint16", "uint32", "uint64", "uintptr",
+	"float32", "float64", "complex64", "complex128", "string", "rune", "byte"}
+
+func c11KindType(k string) r.Type {
+	switch k {
+	case "bool":
+		return r.TypeOf(false)
+	case "int":
+		return r.TypeOf(int(0))
+	case "int8":
+		return r.TypeOf(int8(0))
+	case "int16":
+		return r.TypeOf(int16(0))
+	case "int32", "rune":
+		return r.TypeOf(int32(0))
+	case "int64":
+		return r.TypeOf(int64(0))
+	case "uint":
+		return r.TypeOf(uint(0))
+	case "uint8", "byte":
+		return r.TypeOf(uint8(0))
+	case "uint16":
+		return r.TypeOf(uint16(0))
+	case "uint32":
+		return r.TypeOf(uint32(0))
+	case "uint64":
+		return r.TypeOf(uint64(0))
+	case "uintptr":
+		return r.TypeOf(uintptr(0))
+	case "float32":
+		return r.TypeOf(float32(0))
+	case "float64":
+		return r.TypeOf(float64(0))
+	case "complex64":
+		return r.TypeOf(complex64(0))
+	case "complex128":
+		return r.TypeOf(complex128(0))
+	case "string":
+		return r.TypeOf("")
+	}
+	return nil
+}
+
+// boundary values of a kind, rendered with fmt.Sprint (the token both sides print)
+func c11Boundary(k string, rng *rand.Rand) string {
+	t := c11KindType(k)
+	v := r.New(t).Elem()
+	switch t.Kind() {
+	case r.Bool:
+		v.SetBool(rng.Intn(2) == 0)
+	case r.Int, r.Int8, r.Int16, r.Int32, r.Int64:
+		bits := uint(t.Bits())
+		cands := []int64{0, 1, -1, -1 << (bits - 1), 1<<(bits-1) - 1, 1 << 7, 1 << 8, 1<<15 - 1, 1 << 15, 1 << 16, 1<<16 + 1, -(1 << 16) - 5,
+			1<<31 - 1, -1 << 31, 1 << 32, 0x1F600, 0x10000, 0x10FFFF, 'a', 0x4e16, rng.Int63() >> uint(rng.Intn(63))}
+		x := cands[rng.Intn(len(cands))]
+		v.SetInt(x) // truncated to the kind by reflect? no: SetInt stores the low bits
+	case r.Uint, r.Uint8, r.Uint16, r.Uint32, r.Uint64, r.Uintptr:
+		bits := uint(t.Bits())
+		cands := []uint64{0, 1, 1<<bits - 1, 1 << (bits - 1), 255, 256, 1<<16 - 1, 1 << 16, 1<<16 + 1, 1<<32 - 1, 1 << 32, 1<<63 + 12345, rng.Uint64() >> uint(rng.Intn(64))}
+		v.SetUint(cands[rng.Intn(len(cands))])
+	case r.Float32, r.Float64:
+		cands := []float64{0, 1.5, -2.25, 3.4028234663852886e+38, 1e-45, 16777217, 1e300, -1e-300, 65536.5, 4294967296.5, rng.NormFloat64() * 1e6}
+		v.SetFloat(cands[rng.Intn(len(cands))])
+	case r.Complex64, r.Complex128:
+		cands := []complex128{0, complex(1.5, -2), complex(65537, 1e10), complex(-0.5, 3.4028234663852886e+38)}
+		v.SetComplex(cands[rng.Intn(len(cands))])
+	case r.String:
+		cands := []string{"", "a", "hello world", "\U0001F600 emoji", "日本語", strings.Repeat("x", 70000%(1+rng.Intn(300))), "tab\there"}
+		v.SetString(cands[rng.Intn(len(cands))])
+	}
+	return fmt.Sprint(v.Interface())
+}
+
+func c11ParseKind(k, tok string) (r.Value, bool) {
+	t := c11KindType(k)
+	if t == nil {
+		return r.Value{}, false
+	}
+	v := r.New(t).Elem()
+	switch t.Kind() {
+	case r.Bool:
+		b, err := strconv.ParseBool(tok)
+		if err != nil {
+			return v, false
+		}
+		v.SetBool(b)
+	case r.Int, r.Int8, r.Int16, r.Int32, r.Int64:
+		x, err := strconv.ParseInt(tok, 10, t.Bits())
+		if err != nil {
+			return v, false
+		}
+		v.SetInt(x)
+	case r.Uint, r.Uint8, r.Uint16, r.Uint32, r.Uint64, r.Uintptr:
+		x, err := strconv.ParseUint(tok, 10, t.Bits())
+		if err != nil {
+			return v, false
+		}
+		v.SetUint(x)
+	case r.Float32, r.Float64:
+		x, err := strconv.ParseFloat(tok, t.Bits())
+		if err != nil {
+			return v, false
+		}
+		v.SetFloat(x)
+	case r.Complex64, r.Complex128:
+		x, err := strconv.ParseComplex(tok, t.Bits())
+		if err != nil {
+			return v, false
+		}
+		v.SetComplex(x)
+	case r.String:
+		v.SetString(tok)
+	}
+	return v, true
+}
+
+// emitted by c11Gen (appended there through c11GenK)
+func c11GenK(rng *rand.Rand, tier string, emit func(string)) {
+	pats := []string{"uu", "uuu", "u_u", "_uu", "uu_", "uuuu", "u"}
+	reps := 1
+	if tier == "thorough" {
+		reps = 12
+	}
+	line := func(kinds []string, p string) {
+		var used []int
+		for i, c := range p {
+			if c != '_' {
+				used = append(used, i)
+			}
+		}
+		nres := 1 + rng.Intn(3)
+		var sel, args []string
+		for j := 0; j < nres; j++ {
+			sel = append(sel, strconv.Itoa(used[rng.Intn(len(used))]))
+		}
+		for i := range p {
+			tok := c11Boundary(kinds[i], rng)
+			if len(p) == 1 && tok == "" {
+				tok = "e" // a lone empty token is indistinguishable from "no arguments" in the line format
+			}
+			args = append(args, tok)
+		}
+		named := "n"
+		if rng.Intn(2) == 0 {
+			named = "r"
+		}
+		emit(fmt.Sprintf("cbk %s %s%s|%s|%s", strings.Join(kinds, ","), named, p, strings.Join(sel, ","), strings.Join(args, ";")))
+	}
+	for rep := 0; rep < reps; rep++ {
+		// every kind, uniform parameters, every pattern
+		for _, k := range c11KindList {
+			for _, p := range pats {
+				kinds := make([]string, len(p))
+				for i := range kinds {
+					kinds[i] = k
+				}
+				line(kinds, p)
+				line(kinds, p)
+			}
+		}
+		// mixed kinds
+		for q := 0; q < 60; q++ {
+			p := pats[rng.Intn(len(pats))]
+			kinds := make([]string, len(p))
+			for i := range kinds {
+				kinds[i] = c11KindList[rng.Intn(len(c11KindList))]
+			}
+			line(kinds, p)
+		}
+	}
+	emit("cbk int32,int ruu|0|1")
+	emit("cbk int32,frob ruu|0|1;2")
+	emit("cbk uint8,int8 ruu|0,1|256;-129")
+}
+
+func c11CbK(kinds []string, arg string) Result {
+	bad := Result{Out: "bad-op", Tags: []string{"bad-op"}}
+	parts := strings.Split(arg, "|")
+	if len(parts) != 3 || len(parts[0]) == 0 || (parts[0][0] != 'n' && parts[0][0] != 'r') {
+		return bad
+	}
+	named := parts[0][0] == 'n'
+	pat := parts[0][1:]
+	if len(kinds) != len(pat) || strings.Trim(pat, "u_") != "" {
+		return bad
+	}
+	for _, k := range kinds {
+		if c11KindType(k) == nil {
+			return bad
+		}
+	}
+	var sel []int
+	if parts[1] != "" {
+		for _, s := range strings.Split(parts[1], ",") {
+			n, err := strconv.Atoi(s)
+			if err != nil || n < 0 || n >= len(pat) || pat[n] == '_' {
+				return bad
+			}
+			sel = append(sel, n)
+		}
+	}
+	var argToks []string
+	if parts[2] != "" || len(pat) == 1 {
+		argToks = strings.Split(parts[2], ";")
+	}
+	if len(argToks) != len(pat) {
+		return bad
+	}
+	args := make([]r.Value, len(pat))
+	want := make([]string, len(pat))
+	for i, tok := range argToks {
+		v, ok := c11ParseKind(kinds[i], tok)
+		if !ok {
+			// malformed stream: the Lean side only shuffles tokens, it answers as for a well-formed line;
+			// keep the two sides aligned by shuffling here too
+			var exp []string
+			for _, s := range sel {
+				exp = append(exp, argToks[s])
+			}
+			return Result{Out: strings.Join(exp, ";"), Tags: []string{"cbk-unparsable-argument"}}
+		}
+		args[i] = v
+		want[i] = fmt.Sprint(v.Interface())
+	}
+	var ps, rs, body, rets []string
+	for i, c := range pat {
+		if c == 'u' {
+			ps = append(ps, fmt.Sprintf("a%d %s", i, kinds[i]))
+		} else {
+			ps = append(ps, "_ "+kinds[i])
+		}
+	}
+	for j, s := range sel {
+		if named {
+			rs = append(rs, fmt.Sprintf("r%d %s", j, kinds[s]))
+			body = append(body, fmt.Sprintf("r%d = a%d", j, s))
+		} else {
+			rs = append(rs, kinds[s])
+			rets = append(rets, fmt.Sprintf("a%d", s))
+		}
+	}
+	src := "(func(" + strings.Join(ps, ", ") + ") (" + strings.Join(rs, ", ") + ") { " + strings.Join(body, "; ")
+	if named {
+		src += "; return })"
+	} else {
+		src += " return " + strings.Join(rets, ", ") + " })"
+	}
+	vals, errText := evalSrc(c11CbInterp(), src)
+	if errText != "" || len(vals) != 1 || vals[0].Kind() != r.Func {
+		return Result{Out: "eval-error " + errText, Viol: "interpreted function literal does not evaluate: " + src + ": " + errText, Key: "c11-cbk-eval", Tags: []string{"eval-error"}}
+	}
+	var outs []r.Value
+	var perr interface{}
+	func() {
+		defer func() { perr = recover() }()
+		outs = vals[0].Call(args)
+	}()
+	if perr != nil {
+		return Result{Out: "panic", Viol: fmt.Sprintf("calling %s from compiled code panics: %v", src, perr), Key: "c11-cbk-panic", Tags: []string{"panic"}}
+	}
+	var got, exp []string
+	for _, o := range outs {
+		got = append(got, fmt.Sprint(o.Interface()))
+	}
+	for _, s := range sel {
+		exp = append(exp, want[s])
+	}
+	res := Result{Out: strings.Join(got, ";"), Nontrivial: true, Tags: []string{"cbk", fmt.Sprintf("cbk-params-%d", len(pat))}}
+	seen := map[string]bool{}
+	for _, k := range kinds {
+		if !seen[k] {
+			seen[k] = true
+			res.Tags = append(res.Tags, "cbk-"+k)
+		}
+	}
+	if len(seen) > 1 {
+		res.Tags = append(res.Tags, "cbk-mixed-kinds")
+	}
+	if strings.Join(got, ";") != strings.Join(exp, ";") {
+		bk := ""
+		for j, s := range sel {
+			if j < len(got) && got[j] != exp[j] {
+				bk = kinds[s]
+				break
+			}
+		}
+		res.Viol = fmt.Sprintf("%s called with (%s) from compiled code returned (%s), Go returns (%s)", src, strings.Join(want, ", "), strings.Join(got, ", "), strings.Join(exp, ", "))
+		res.Key = fmt.Sprintf("c11-cbk-%s-param-of-%d", bk, len(pat))
+	}
+	return res
 }
